@@ -119,7 +119,7 @@ func runC01(r *R) {
 				g, _ := Guard(fn, gb, in, guard)
 				x, lo, hi, isSlice := SliceParts(c.Common().Args[0])
 				okFlow := isSlice && same(x, buf) && lo == nil && hi != nil && IsResultOfCall(Resolve1(hi), gb.Value(), 0)
-				dom := gb.Block().Dominates(in.Block())
+				dom := Precedes(gb, in)
 				r.Check(g && okFlow && dom, "C01-R2", fn, "call ResponseWriter.Write", in.Pos(),
 					"guarded by GetBlock err==nil; writes buf[:size]",
 					"response body write not (guarded by GetBlock err==nil and equal to buf[:size] of that call)")
@@ -136,7 +136,7 @@ func runC01(r *R) {
 				if cv, ok := Resolve1(a[1]).(*ssa.Call); ok && CalleeName(cv.Common()) == "strconv.Itoa" {
 					okFlow = IsResultOfCall(Resolve1(cv.Call.Args[0]), gb.Value(), 0)
 				}
-				r.Check(g && okFlow && gb.Block().Dominates(in.Block()), "C01-R2", fn, "set Content-Length", in.Pos(),
+				r.Check(g && okFlow && Precedes(gb, in), "C01-R2", fn, "set Content-Length", in.Pos(),
 					"guarded by GetBlock err==nil; value is Itoa(size)",
 					"Content-Length not derived from GetBlock's size under err==nil")
 			}
@@ -273,7 +273,7 @@ func runC01(r *R) {
 					continue
 				}
 				g, _ := Guard(fn, cmp, ret, guard)
-				r.Check(g && cmp.Block().Dominates(ret.Block()), "C01-R6", fn, "return n, nil", ret.Pos(), "guarded by Compare==nil", "success return reachable when Compare reported an error or without Compare")
+				r.Check(g && Precedes(cmp, ret), "C01-R6", fn, "return n, nil", ret.Pos(), "guarded by Compare==nil", "success return reachable when Compare reported an error or without Compare")
 			}
 			// CollisionError is propagated
 			collided := false
@@ -347,7 +347,7 @@ func checkGetBlockReturn(r *R, fn *ssa.Function, ret *ssa.Return, sz ssa.Value) 
 	}, Is(hashP)))
 	// error operand must be nil const on this return
 	succ, _ := IsSuccessReturn(ret)
-	r.Check(gErr && gSum && succ && call.Block().Dominates(ret.Block()), rule, fn, "return size,nil", ret.Pos(),
+	r.Check(gErr && gSum && succ && Precedes(call, ret), rule, fn, "return size,nil", ret.Pos(),
 		"size is Volume.Get's length for (hash, buf); guarded by err==nil and md5(buf[:size])==hash",
 		"return of a non-zero length not guarded by both Get err==nil and md5(buf[:size])==hash (same buf, same size)")
 }
@@ -399,7 +399,7 @@ func compareRule(r *R, rule string) {
 				continue
 			}
 			gEOF, _ := Guard(fn, nil, ret, EqC("err==io.EOF", AnyV, GlobalVP("io.EOF")))
-			gLen, _ := Guard(fn, nil, ret, EqC("len(cmp)==0", lenVP, ConstIntVP(0)))
+			gLen, _ := Guard(fn, nil, ret, IntC("len(cmp)==0", lenVP, token.EQL, 0, true))
 			gMis, _ := Guard(fn, nil, ret, EqC("bytes.Compare(...)==0", CallVP("bytes.Compare"), ConstIntVP(0)))
 			if !gMis {
 				gMis, _ = Guard(fn, nil, ret, TrueC("bytes.Equal(...)", CallVP("bytes.Equal")))
